@@ -212,6 +212,10 @@ class C12(PropBase):
     translators = ["c12_structure.py", "c12_program.py"]
     coq_dirs = ["C12"]
     bins = ["c12"]
+    # per-SHARD limit of the implementation children (runner default 900 s): the thorough tier has ~170 000 cases per shard and
+    # exceeded 900 s once at load average > 300 (reported as "child died or hung", a false alarm).  A real hang is still
+    # caught at once by vharness' per-case watchdog (VHARNESS_CASE_TIMEOUT, 30 s) and by the LOST time-outs of the tokio modes.
+    impl_timeout = 3300
     rule = ("case = (mode, tasks: lists of (module key, API or file kind), per key: suspensions, supplier answer, module identity "
             "(code_file, code_id, debug_file, debug_id), schedule). mode 0: the real futures are polled in schedule order, then "
             "round-robin; mode 1: wake-driven executor (only woken tasks are polled; the poll trace is compared); mode 2: concurrent "
